@@ -102,6 +102,7 @@ func c14(c *Ctx) {
 	c14NextHopOfPeer(c)
 	c14PayloadIsWhatWasRead(c)
 	c14NewStateInFrontOfTimeWait(c)
+	sharedScratchUnderLock(c, "shared-scratch-under-lock", send, "m", "two connections that answer at the same moment assemble their frames in the same memory, and the transmit ring gets frames with one peer's hardware address and the other's IP addresses, ports and checksums")
 	// the port handler parks in Socket.Read until flush() signals it; the signal must not be lost when the handler is not parked yet (shared with C16)
 	wakeupNotLost(c, canaryRel, "Socket.flush no longer signals the reader with a non-blocking send (rule needs re-anchoring)", "the pushed segment stays in the ring until the reader's 60 s timeout: the port handler's single Read returns nothing and the event is reported without the client's first pushed segment")
 	// the payload the segment handler sees ends where the IP datagram ends, not where the Ethernet frame ends (shared with C20)
